@@ -36,6 +36,13 @@ Theorem c08_no_self_deadlock_callees : no_reacq_callees summaries all_cfgs = tru
 Proof. vm_compute. reflexivity. Qed.
 Print Assumptions c08_no_self_deadlock_callees.
 
+(* the caller's context reaches every blocking request (stream close requests, open requests,
+   metadata, Flush, the ack wait, the retry wrapper): none of them is handed a stored stream /
+   connection context or a mixture - so the context guard of the model's selects is the caller's *)
+Theorem c08_caller_ctx : forallb caller_ctx_ok ctx_args = true /\ blocking_callees_used ctx_args = true.
+Proof. exact c08_caller_ctx_alternatives. Qed.
+Print Assumptions c08_caller_ctx.
+
 (* every blocking statement of the library is bounded by syntactic evidence or is one of the
    protocols below / a stated join; none is under a lock (the list of exceptions is empty) *)
 Theorem c08_every_wait_classified :
